@@ -8,8 +8,10 @@ import PegVerif.Generated.PegGrammar
 /-
   C02 (`-switch` part) — translation validation of the first-set rewrite.
 
-  The rewrite `optimizeAlternates` is unsound in general (finding F-C02-1), so there is no theorem
-  about `optimise` itself.  What is proved (Proofs/SwitchLemmas.lean): for every pair `G`, `G'` the
+  There is no theorem about `optimise` (the rewrite `optimizeAlternates`) itself: it was unsound for
+  some grammars (finding F-C02-1 and the parentDetect defects of `compile`, repaired in `tree/peg.go`; the replay grammars of the repairs
+  are TESTS at the end of this file) and it computes with the interval sets of `set/set.go`.  What
+  is proved (Proofs/SwitchLemmas.lean): for every pair `G`, `G'` the
   executable check `swOK G G'` accepts, every rule has the same outcome in both grammars.
 
   Below: the theorems under their C02 names, and TESTS of the checker (each `example` is evaluated
@@ -121,6 +123,11 @@ def accepts (G : Grammar) (s : String) : Bool :=
   | some (.ok _ _) => true
   | _ => false
 
+def accepts' (G : Grammar) (inp : List Sym) : Bool :=
+  match evalF G (fun _ _ => true) inp 1000 (.name "S") 0 with
+  | some (.ok _ _, _) => true
+  | _ => false
+
 /-- `optimise G`, and whether the checker accepts it. -/
 def checkOpt (G : Grammar) : Option Bool := (optimise G).toOption.map (swOK G)
 
@@ -166,27 +173,42 @@ example : swOK G1 (G1bad [[(97, 97)], [(100, 100)], []]
     [.seq [.chr 97, .chr 120], .seq [.chr 100, .chr 122], .seq [.rng 98 100, .chr 121]]) = false := by
   decide
 
-/-- TEST (ii), a genuinely unsound rewrite (F-C02-1): a nullable alternative.
-    `S <- ('a'? 'k'? / 'b' 'x' / 'c' 'y') 'z' !.` — on "bxz" the original takes the first
-    alternative (empty) and then fails on 'z'; the switch goes to `'b' 'x'` and accepts. -/
+/-- TEST (ii), REPAIRED (F-C02-1): a nullable alternative.
+    `S <- ('a'? 'k'? / 'b' 'x' / 'c' 'y') 'z' !.` — on "bxz" the grammar takes the first
+    alternative (empty) and then fails on 'z'.  A choice with an alternative that may succeed
+    without consuming is no longer rewritten (`consumes` is the conjunction over all alternatives). -/
 def G3 : Grammar := { rules := [
   { name := "S", id := 0, body := .ipush (.seq [
       .alt [.seq [.query (.chr 97), .query (.chr 107)], .seq [.chr 98, .chr 120],
             .seq [.chr 99, .chr 121]],
       .chr 122, .peekNot .dot]) "S" }] }
 
-/-- the optimiser does rewrite it, into a grammar that accepts a different language … -/
+/-- the optimiser leaves the choice ordered, the language is unchanged … -/
 example : (optimise G3).toOption.map (fun G' => (accepts G3 "bxz", accepts G' "bxz")) =
-    some (false, true) := by decide
-/-- … and the checker REJECTS the pair. -/
-example : checkOpt G3 = some false := by decide
+    some (false, false) := by decide
+example : (optimise G3).toOption.map (fun G' => swMatchE (fun _ => none) (G3.rules.map (·.body)).head!
+    (G'.rules.map (·.body)).head!) = some true := by decide      -- literally the same tree
+/-- … and the checker accepts the pair. -/
+example : checkOpt G3 = some true := by decide
 
-/-- TEST (ii'), the shape of finding F-C02-2,
+/-- TEST of the CHECKER: the rewrite the unrepaired optimiser made of `G3` (a switch on the
+    incomplete first sets; it accepts "bxz") is REJECTED. -/
+def G3old : Grammar := { rules := [
+  { name := "S", id := 0, body := .ipush (.seq [
+      .ualt [[(98, 98)], [(99, 99)], [(97, 97), (107, 107)]]
+        [.seq [.chr 98, .chr 120], .seq [.chr 99, .chr 121],
+         .seq [.query (.chr 97), .query (.chr 107)]],
+      .chr 122, .peekNot .dot]) "S" }] }
+
+example : (accepts G3 "bxz", accepts G3old "bxz") = (false, true) := by decide
+example : swOK G3 G3old = false := by decide
+
+/-- TEST (ii'), REPAIRED (the `compile` part of F-C02-1, "F-C02-2" in earlier notes),
     `S <- (([a-b] 'q' / 'c' 'w') 'z' / [d-h] 'x' / 'i' 'y') !.`
-    The checker ACCEPTS the optimiser's output, and rightly so: the rewritten TREE is equivalent
-    (`Eval` of the switch node evaluates the selected case in full).  F-C02-2 is a defect of the
-    code EMITTED for the switch (a range reached with `parentDetect` under a multi-key case skips its
-    test), i.e. of `compile`, not of the rewrite — it is outside what `swOK` speaks about. -/
+    The checker accepts the optimiser's output: the rewritten TREE is equivalent.  The defect was in
+    the code EMITTED for the switch (`[a-b]` reached with `parentDetect` under the three-key case
+    a,b,c skipped its test, so "cqz" was accepted); `compile` now keeps the test of a range under
+    `parentMultipleKey`, the emitted code is covered by `switchSafe`. -/
 def G2 : Grammar := { rules := [
   { name := "S", id := 0, body := .ipush (.seq [
       .alt [.seq [.alt [.seq [.rng 97 98, .chr 113], .seq [.chr 99, .chr 119]], .chr 122],
@@ -196,6 +218,12 @@ def G2 : Grammar := { rules := [
 example : checkOpt G2 = some true := by decide
 example : (optimise G2).toOption.map (fun G' => (accepts G2 "cqz", accepts G' "cqz")) =
     some (false, false) := by decide
+/-- the emitted code tests `[a-b]` (and the machine rejects "cqz", accepts "cwz") -/
+example : (optimise G2).toOption.map (fun G' =>
+    (((compileAll {} G').find "S").map (fun c =>
+      c.any (fun i => match i with | .ifNotRng 97 98 _ => true | _ => false)),
+     swAgree G' [99, 113, 122], swAgree G' [99, 119, 122], swAgree G' [97, 113, 122])) =
+    some (some true, true, true, true) := by decide
 
 /-- TEST (iii).  Ordered alternatives followed by a switch:
     `S <- ('a' / 'b' 'y' / 'a' 'z' / 'c' 'w') !.` — `'a'` intersects the later `'a' 'z'` and stays
@@ -256,6 +284,99 @@ end
 #guard checkOpt pegG == some true
 #guard (optimise pegG).toOption.map (fun G' => (G'.rules.filter (fun r => hasSwitch r.body)).length)
   == some 7
+
+/-! ## TESTS: the replay grammars of the three repairs of `tree/peg.go`
+
+  For each grammar: the default parser's side conditions hold, `optimise` succeeds and its output
+  passes `switchSafe` — so `C02_switch_same_as_default` applies to the repaired optimiser's output:
+  the `-switch` parser and the default parser agree on every input. -/
+
+/-- `optimise G` succeeds and its output passes the end-to-end side condition. -/
+def safeOpt (G : Grammar) : Option Bool := (optimise G).toOption.map (switchSafe G)
+
+/-- Was some choice rewritten into a switch? -/
+def rewritten (G : Grammar) : Option Bool :=
+  (optimise G).toOption.map (fun G' => G'.rules.any (fun r => hasSwitch r.body))
+
+/-- The hypotheses of `C02_switch_same_as_default` about the source grammar. -/
+def defaultOK (G : Grammar) : Bool :=
+  WFB G && GrammarOK G && LinkedOK G && G.rules.all (fun r => r.body.plain)
+
+def mkS (alts tail : List Expr) : Grammar := { rules := [
+  { name := "S", id := 0, body := .ipush (.seq (.alt alts :: tail)) "S" }] }
+
+/-- (1) `S <- ('a'? 'k'? / 'b' 'x' / 'c' 'y') 'z' !.` = `G3`: nullable alternative, not rewritten. -/
+example : (defaultOK G3, safeOpt G3, rewritten G3) = (true, some true, some false) := by decide
+
+/-- (2) `S <- (&'q' / 'b' 'x' / 'c' 'y') 'z' !.`: lookahead-only alternative, not rewritten. -/
+def Rp2 : Grammar := mkS [.peekFor (.chr 113), .seq [.chr 98, .chr 120], .seq [.chr 99, .chr 121]]
+  [.chr 122, .peekNot .dot]
+example : (defaultOK Rp2, safeOpt Rp2, rewritten Rp2) = (true, some true, some false) := by decide
+
+/-- (3) `S <- (([a-b] 'q' / 'c' 'w') 'z' / [d-h] 'x' / 'i' 'y') !.` = `G2`: rewritten, the range
+    under the multi-key case keeps its test. -/
+example : (defaultOK G2, safeOpt G2, rewritten G2) = (true, some true, some true) := by decide
+
+/-- (4) `S <- ([a-b]* 'x' 'q' / 'c' 'w' / [k-t] 'v') !.`: all three alternatives consume, the choice
+    IS rewritten; `e*` compiles its body without `parentDetect`. -/
+def Rp4 : Grammar := mkS [.seq [.star (.rng 97 98), .chr 120, .chr 113], .seq [.chr 99, .chr 119],
+  .seq [.rng 107 116, .chr 118]] [.peekNot .dot]
+example : (defaultOK Rp4, safeOpt Rp4, rewritten Rp4) = (true, some true, some true) := by decide
+/-- The `[a-b]*` alternative is a non-default case with the keys a, b, x (as observed on the real
+    repaired generator) … -/
+example : (optimise Rp4).toOption.map (fun G' => swMatchL (fun _ => none) (G'.rules.map (·.body)) [
+    .ipush (.seq [.ualt [[(99, 99)], [(97, 98), (120, 120)], [(107, 116)]]
+      [.seq [.chr 99, .chr 119], .seq [.star (.rng 97 98), .chr 120, .chr 113],
+       .seq [.rng 107 116, .chr 118]], .peekNot .dot]) "S"]) = some true := by decide
+/-- … and the code of the star body contains the range test: it is no longer elided. -/
+example : (optimise Rp4).toOption.map (fun G' => ((compileAll {} G').find "S").map (fun c =>
+    c.any (fun i => match i with | .ifNotRng 97 98 _ => true | _ => false))) = some (some true) := by
+  decide
+example : (optimise Rp4).toOption.map (fun G' =>
+    [[97, 98, 97, 120, 113], [120, 113], [97, 99], [99, 119], [108, 118], [97], []].all (swAgree G')) =
+    some true := by decide
+
+/-- (5) `S <- (![a-b] [a-c] 'q' / 'd' 'w' / [k-t] 'v') !.`: `!e` compiles `e` without the flags. -/
+def Rp5 : Grammar := mkS [.seq [.peekNot (.rng 97 98), .rng 97 99, .chr 113], .seq [.chr 100, .chr 119],
+  .seq [.rng 107 116, .chr 118]] [.peekNot .dot]
+example : (defaultOK Rp5, safeOpt Rp5, rewritten Rp5) = (true, some true, some true) := by decide
+example : (optimise Rp5).toOption.map (fun G' =>
+    [[99, 113], [97, 113], [98, 113], [100, 119], [107, 118]].map (fun i => (swAgree G' i, accepts' G' i))) =
+    some [(true, true), (true, false), (true, false), (true, true), (true, true)] := by decide
+
+/-- (6) `S <- (&[b-c] 'a' 'q' / 'd' 'w' / [k-t] 'v') !.`: `&e` compiles `e` without the flags. -/
+def Rp6 : Grammar := mkS [.seq [.peekFor (.rng 98 99), .chr 97, .chr 113], .seq [.chr 100, .chr 119],
+  .seq [.rng 107 116, .chr 118]] [.peekNot .dot]
+example : (defaultOK Rp6, safeOpt Rp6, rewritten Rp6) = (true, some true, some true) := by decide
+example : (optimise Rp6).toOption.map (fun G' =>
+    [[97, 113], [98, 113], [100, 119], [107, 118]].map (fun i => (swAgree G' i, accepts' G' i))) =
+    some [(true, false), (true, false), (true, true), (true, true)] := by decide
+
+/-- (7) recursion, `S <- C !.  C <- 'c' A / 'k'  A <- C 'x' D / 'y'  D <- A 'z' / 'c' 'w' / 'd' 'v'`:
+    while `A` is analysed (`reached`, not `done`) the reference to it from `D` answers "does not
+    consume, any character", so the choice of `D` stays ordered. -/
+def Rp7 : Grammar := { rules := [
+  { name := "S", id := 0, body := .ipush (.seq [.name "C", .peekNot .dot]) "S" },
+  { name := "C", id := 1, body := .ipush (.alt [.seq [.chr 99, .name "A"], .chr 107]) "C" },
+  { name := "A", id := 2, body := .ipush (.alt [.seq [.name "C", .chr 120, .name "D"], .chr 121]) "A" },
+  { name := "D", id := 3, body := .ipush (.alt [.seq [.name "A", .chr 122], .seq [.chr 99, .chr 119],
+      .seq [.chr 100, .chr 118]]) "D" }] }
+example : (defaultOK Rp7, safeOpt Rp7, rewritten Rp7) = (true, some true, some false) := by decide
+/-- "ccyxcw": `D` must try `A 'z'` first ('c' is also the first character of `A`) -/
+example : (optimise Rp7).toOption.map (fun G' => (accepts G' "ccyxcw", accepts Rp7 "ccyxcw",
+    accepts G' "ccyxyz", accepts Rp7 "ccyxyz")) = some (true, true, true, true) := by decide
+
+/-- A rule that is `done` is still answered from the cache, and rewrites behind a recursion still
+    happen: `S <- A !.  A <- 'a' A / B   B <- 'b' 'x' / 'c' 'y' / 'd' 'z'`. -/
+def Rp8 : Grammar := { rules := [
+  { name := "S", id := 0, body := .ipush (.seq [.name "A", .peekNot .dot]) "S" },
+  { name := "A", id := 1, body := .ipush (.alt [.seq [.chr 97, .name "A"], .name "B"]) "A" },
+  { name := "B", id := 2, body := .ipush (.alt [.seq [.chr 98, .chr 120], .seq [.chr 99, .chr 121],
+      .seq [.chr 100, .chr 122]]) "B" }] }
+example : (defaultOK Rp8, safeOpt Rp8, rewritten Rp8) = (true, some true, some true) := by decide
+
+-- The bootstrap grammar passes the end-to-end check as well.
+#guard safeOpt pegG == some true
 
 end SwitchTests
 end PegVerif
